@@ -65,10 +65,11 @@ type SearchOutcome struct {
 }
 
 type searchRun struct {
-	sc   *SearchScenario
-	out  *SearchOutcome
-	keep bool // keep history text
-	stop func() bool
+	sc      *SearchScenario
+	out     *SearchOutcome
+	keep    bool // keep history text
+	scratch *search.Search
+	stop    func() bool
 }
 
 func (r *searchRun) stat(k string, d int64) { r.out.Stats[k] += d }
@@ -117,6 +118,7 @@ func (r *searchRun) run() {
 		}
 		g.Push(m)
 	}
+	wantDigest = sc.Twins > 0
 	prim := search.New(sc.TTBytes)
 	var twins []*search.Search
 	for i := 0; i < sc.Twins; i++ {
@@ -446,7 +448,15 @@ func (r *searchRun) sweep(si int, g *ref.Game, prim *search.Search, b *board.Boa
 		} else {
 			q.StopAtPoll = k
 		}
-		c := prim.VerifClone()
+		// the same scratch engine is reused over the sweep (a search after an
+		// aborted search on the same instance), with the primary's persistent
+		// state copied in before every point
+		if r.scratch == nil || r.scratch.VerifTTBytes() != prim.VerifTTBytes() || k%29 == 0 {
+			r.scratch = prim.VerifClone()
+		} else {
+			prim.VerifCopyStateTo(r.scratch)
+		}
+		c := r.scratch
 		res := runGo(c, b, q, st.Sched, nil, nil)
 		r.account(&res, q, g)
 		r.stat("abort_points_swept", 1)
